@@ -1,6 +1,6 @@
 """Single source of truth for MANIFEST.json (tools/mkmanifest.py)."""
 
-FIX_COMMITS = ['cca4fac (C19 bbox int coercion)', '1b3ab08 28009fb (C05 cutout fill dtype / out-of-range integer fill)', '81c7236 (C05 multiply Quantity fill)', '1970dc7 e443d7c (C20 PixCoord.rotate any shape / differences in float)', 'c13e427 032fdea (C01 polygon scalar contains / ellipse+rectangle offsets in float F1c)', 'b692b96 (C14 FITS lexists)', 'd5e55fe (C14 encode before open)', '7575e32 ccc4c00 50480bb b15a97b d623722 727d915 942a7aa ec59199 (C17 validators (+ huge Python ints F11b)/meta/list (+ one-shot iterables in the constructor F13c and in extend F13d)/nvertices/text)', 'd91a439 7c95242 bdc0d0d 562b011 (C12 FITS exclude prefix / include+component / component dtype / ROTANG degrees)', '23f75f4 4b5524a 7cc5a6b fa5f94a (C16/C06 compound sky meta, shape-mismatch ==, symmetric PixCoord ==, DS9 Path markers survive copy F15m)', 'dca4ab5 4987549 cb1965c (C18 text kwargs aliases / polygon origin in float F182 / circle radius float F183)', 'be2b52e f813781 bd2caa9 1c54a50 e6a38a6 3370b62 (C10 DS9 reader; last two: composite properties F105/F106)', 'd58a058 80f2f4f 193fdcf b51f440 (C09 DS9 writer; last one: frame attributes F35)', '90d029a 48bc62d 5176ec4 3bd1349 e7c5f7b 10da16e 120394c (C11/C13 CRTF; last one: frame attributes F34)', 'b532b53 (C06 point/line/text sky contains() shape F203)']
+FIX_COMMITS = ['cca4fac (C19 bbox int coercion)', '1b3ab08 28009fb (C05 cutout fill dtype / out-of-range integer fill)', '81c7236 (C05 multiply Quantity fill)', '1970dc7 e443d7c (C20 PixCoord.rotate any shape / differences in float)', 'c13e427 032fdea 32d7f72 (C01 polygon scalar contains / ellipse+rectangle offsets in float F1c / regular polygon follows assigned parameters F1r)', 'b692b96 (C14 FITS lexists)', 'd5e55fe (C14 encode before open)', '7575e32 ccc4c00 50480bb b15a97b d623722 727d915 942a7aa ec59199 (C17 validators (+ huge Python ints F11b)/meta/list (+ one-shot iterables in the constructor F13c and in extend F13d)/nvertices/text)', 'd91a439 7c95242 bdc0d0d 562b011 (C12 FITS exclude prefix / include+component / component dtype / ROTANG degrees)', '23f75f4 4b5524a 7cc5a6b fa5f94a (C16/C06 compound sky meta, shape-mismatch ==, symmetric PixCoord ==, DS9 Path markers survive copy F15m)', 'dca4ab5 4987549 cb1965c (C18 text kwargs aliases / polygon origin in float F182 / circle radius float F183)', 'be2b52e f813781 bd2caa9 1c54a50 e6a38a6 3370b62 (C10 DS9 reader; last two: composite properties F105/F106)', 'd58a058 80f2f4f 193fdcf b51f440 (C09 DS9 writer; last one: frame attributes F35)', '90d029a 48bc62d 5176ec4 3bd1349 e7c5f7b 10da16e 120394c (C11/C13 CRTF; last one: frame attributes F34)', 'b532b53 (C06 point/line/text sky contains() shape F203)']
 HOOK_COMMITS = []
 
 CHECKS = [
@@ -124,7 +124,8 @@ CHECKS = [
              'Ellipse exact path (Props/C03Ellipse, C03EllipseGeom; literal model of elliptical_overlap_single_exact and overlap_area_triangle_unit_circle with circle_line / circle_segment / in_triangle): the recursion terminates (fuel 2); pixel ∩ ellipse = rx ry (T1 ∩ disk + T2 ∩ disk) in measure (linear change of variables); area_triangle = measure of the closed triangle, area_arc_unit = circular segment (minor or major); '
              'overlapTri_correct_partial: for every triangle in the class Good (all vertices inside or on; two in / one out; one in / two out incl. the pi - arc and the two-crossing branch; none in with or without chord recursion; vertices outside the 1e-10 tolerance ring, edges not tiny) the routine returns exactly the measure of triangle ∩ unit disk, hence ellipseCell_eq_volume_good: the cell value = area(pixel ∩ ellipse)/(dx dy) in [0,1]. '
              'The full statement is REFUTED by two theorems at rational inputs (on1_branch_refuted, on2_branch_refuted) = open findings F3a / F3b (a pixel corner exactly on the ellipse), confirmed on the real library. '
-             'Sub-pixel values are k/n^2 in [0,1] (C02). NOT proved (validated only): that the IEEE-double evaluation stays within 1e-8 of the real value; the remaining on-vertex sub-branches and the tolerance ring of the ellipse routine; the O(L/n) convergence bound of sub-pixel masks.',
+             'Convergence (Props/C03Converge): for every circle and every ellipse (any unit direction), every pixel and every n > 0, |sub-pixel mask cell - area(pixel ∩ open shape)| <= 2/n (circle_mask_converges, ellipse_mask_converges; abstract form sampled_error_quasiconcave for any shape whose vertical slices are open intervals of continuous quasi-concave length; per column two threshold counts within 1/(2n), across columns the midpoint rule of a unimodal function). '
+             'Sub-pixel values are k/n^2 in [0,1] (C02). NOT proved (validated only): that the IEEE-double evaluation stays within 1e-8 of the real value; the remaining on-vertex sub-branches and the tolerance ring of the ellipse routine; the convergence bound for rotated rectangles and polygons (their slices are not open intervals).',
      'note': 'Partial proof: floating-point evaluation is validated by a differential run: Float instance of the SAME Lean text vs the compiled kernel (circle 1e-12, ellipse bit-identical on all cells so far), and kernel vs an independent closed-form integration oracle evaluated with 50-60 digits (1e-8); convergence with the explicit constant 4L/n + 4m/n^2. Open findings F3a, F3b (not repairable here: Cython source, no compiler). '
              'Trusted: Lean kernel + 3 std axioms; tools/instantiate.py (one template, two instances); libm.'},
     {'property_id': 'C06',
